@@ -88,10 +88,7 @@ func (v *SliceSchema) validate(ctx *p.SchemaCtx) {
 	if isZeroVal || refVal.Len() == 0 {
 		if v.defaultVal != nil {
 			// copy: the destination must not share memory with the schema's default
-			def := reflect.ValueOf(v.defaultVal)
-			cp := reflect.MakeSlice(refVal.Type(), def.Len(), def.Len())
-			reflect.Copy(cp, def)
-			refVal.Set(cp)
+			refVal.Set(cloneSliceValue(reflect.ValueOf(v.defaultVal)))
 		} else if v.required == nil {
 			return
 		} else {
@@ -387,4 +384,18 @@ func sliceLength(n int) (Test, BoolTFunc) {
 	}
 	t.Params[zconst.IssueCodeLen] = n
 	return t, fn
+}
+
+// cloneSliceValue copies a slice and, recursively, the slices it contains.
+func cloneSliceValue(src reflect.Value) reflect.Value {
+	cp := reflect.MakeSlice(src.Type(), src.Len(), src.Len())
+	for i := 0; i < src.Len(); i++ {
+		el := src.Index(i)
+		if el.Kind() == reflect.Slice && !el.IsNil() {
+			cp.Index(i).Set(cloneSliceValue(el))
+		} else {
+			cp.Index(i).Set(el)
+		}
+	}
+	return cp
 }
